@@ -508,7 +508,7 @@ pub fn evaluate(ctx: &Ctx, t: &Trial, rep: &mut Report, air_sample: bool) -> Ver
     }
     let si = stack_inputs(&t.stack);
     let mut host = DishonestHost::new(ctx.provider.clone(), t.script.clone());
-    let out = exec_host(ctx.prog, si.clone(), &mut host, ExecutionOptions::default());
+    let out = exec_host(ctx.prog, si.clone(), &mut host, crate::case::bounded_opts());
     if !honest && host.fired == 0 {
         // the deviation never reached the VM: this run says nothing (harness gap, not a finding)
         rep.count("unfired", &format!("{}|{}|{}", instr, t.relation, out.class()));
